@@ -411,8 +411,8 @@ class Cluster:
                 try:
                     with open(args[0]) as f:
                         data, rc = f.read(), 0
-                except OSError:
-                    data, rc = "", 1
+                except OSError:      # the connector appends 2>&1: the message is part of the captured output
+                    data, rc = "cat: %s: No such file or directory\n" % args[0], 1
             elif op == "sed":
                 pat, repl = args
                 outl = []
@@ -594,7 +594,7 @@ class Schedule:
         self.undeploy_info = None
         self.findings = []       # direct verdicts: (signature, detail, what)
         self.machinery = None
-        self.pending_exec = []   # exec events found in the log, not yet attributed
+        self.collect_noted = set()
         self.hits = 0
         self.wall = 0.0
 
@@ -660,7 +660,14 @@ class Schedule:
                     else:
                         self.results[j] = ("ret", repr(r), None)
                 kind = self.results[j][0]
+                if kind == "ret" and j not in self.collect_noted:
+                    self.collect_noted.add(j)
+                    self.cluster.note("collect label=%d" % j)
                 self.cluster.note("%s label=%d" % ("return" if kind == "ret" else "raise", j))
+            elif not t.done() and j not in self.collect_noted and self.obs_pc(j) == "collect":
+                # the call left the polling loop during this step (before any later driver action)
+                self.collect_noted.add(j)
+                self.cluster.note("collect label=%d" % j)
 
     def _absorb_log(self):
         """New cluster-side log lines -> Exec events (in log order)."""
@@ -814,6 +821,8 @@ class Schedule:
         r = self.results[j]
         if r[0] == "raise":
             return {"kind": "raise", "exc": r[1]}
+        if self.cluster.job_state(self.ids.get(j, "")) == "CANCELLED":
+            return {"kind": "ret", "out": 0, "rc": 0}      # a cancelled job has no results of its own: not compared
         return {"kind": "ret", "out": self._out_owner(r[1]), "rc": self._rc_owner(r[2])}
 
     def _out_owner(self, out):
@@ -905,7 +914,7 @@ class Schedule:
         L = self.cluster.lines
         gone = {}            # label -> seq at which the job left the queue (normal end or cancel)
         cancelled = set()
-        first_show = {}      # label -> seq of the first scontrol about that job
+        first_show = {}      # label -> seq at which the call for that job was seen past the polling loop
         ret_seq = {}
         for ln in L:
             t = ln["tool"]
@@ -916,16 +925,14 @@ class Schedule:
                     if x and x in self.labels:
                         gone.setdefault(self.labels[x], ln["seq"])
                         cancelled.add(self.labels[x])
-            elif t == "scontrol":
-                j = self.labels.get(ln.get("id", ""))
-                if j is not None:
-                    first_show.setdefault(j, ln["seq"])
+            elif t == "note" and ln.get("kind") == "collect":
+                first_show.setdefault(int(ln["label"]), ln["seq"])
             elif t == "note" and ln.get("kind") in ("return", "raise"):
                 ret_seq[int(ln["label"])] = ln["seq"]
         undeployed = self.undeploy_info is not None and self.undeploy_info.get("outcome") == "ok"
         for j, r in sorted(self.results.items()):
             jid = self.ids.get(j)
-            base = {"job": j, "id": jid, "result": list(r), "gone_seq": gone.get(j), "first_scontrol_seq": first_show.get(j),
+            base = {"job": j, "id": jid, "result": list(r), "gone_seq": gone.get(j), "collect_seq": first_show.get(j),
                     "return_seq": ret_seq.get(j)}
             report = min(x for x in (first_show.get(j), ret_seq.get(j)) if x is not None) if (first_show.get(j) or ret_seq.get(j)) else None
             reported = r[0] == "ret" or j in first_show
@@ -934,9 +941,9 @@ class Schedule:
                             base, "run() for job %d stopped polling / returned %r at log seq %s but the job %s" % (
                                 j, r[1:], report, "never left the queue before that" if j not in gone else "left at seq %s" % gone[j])))
                 continue
-            if r[0] == "ret":
-                exp_out = "" if j in cancelled else own_output(j, jid)
-                exp_rc = 0 if j in cancelled else own_rc(j)
+            if r[0] == "ret" and j not in cancelled:
+                exp_out = own_output(j, jid)
+                exp_rc = own_rc(j)
                 if r[1] != exp_out:
                     who = self._out_owner(r[1])
                     sig = "run:output-of-another-job" if who not in (0, 99, j) else ("run:empty-output-for-finished-job" if who == 0 else "run:wrong-output")
@@ -945,7 +952,7 @@ class Schedule:
                     who = self._rc_owner(r[2])
                     sig = "run:exit-code-of-another-job" if who not in (0, 99, j) else "run:wrong-exit-code"
                     out.append((sig, dict(base, expected=exp_rc), "run() for job %d returned exit code %r, its own is %r" % (j, r[2], exp_rc)))
-            elif not undeployed:
+            elif r[0] == "raise" and not undeployed:
                 exc = r[1].split(":")[0]
                 out.append(("run:raises:%s" % exc, base, "run() for job %d raised %s (no undeploy happened)" % (j, r[1])))
         info = self.undeploy_info
